@@ -3,4 +3,5 @@ EXTENDS LSCore
 MCAddr == {"A", "B"}
 MCRoots == {"-", "A", "R"}
 QRoots == {"-", "A"}
+BAddr == {"A", "K1", "K2"}   \* large-batch design check: one ordinary chunk (the context root) and two bulk chunks
 =============================================================================
